@@ -92,7 +92,8 @@ class App(object):
 
     # ------------------------------------------------------------------ http
     def call(self, method, path, body=None, version='1.39', token=ADMIN, headers=None,
-             raw_body=None, content_type='application/json', accept='application/json'):
+             raw_body=None, content_type='application/json', accept='application/json',
+             roles='admin,service'):
         req = webob.Request.blank(path, method=method)
         if token:
             req.headers['x-auth-token'] = token
@@ -100,6 +101,8 @@ class App(object):
             req.headers['openstack-api-version'] = 'placement %s' % version
         if accept:
             req.headers['accept'] = accept
+        if roles is not None and token:
+            req.headers['x-roles'] = roles
         if raw_body is not None:
             req.body = raw_body
             if content_type:
